@@ -981,9 +981,14 @@ class Gen:
             elif r < 0.85:
                 resp["content"] = {rng.choice(["text/plain", "text/html"]): {"schema": {"type": "string"}}}
                 self.features.add("resp:text")
-            elif r < 0.95:
+            elif r < 0.92:
                 resp["content"] = {"application/octet-stream": {"schema": {"type": "string", "format": "binary"}}}
                 self.features.add("resp:binary")
+            elif r < 0.95:
+                # a combination without a defined meaning (binary schema under a text / JSON media type): its own parsed
+                # value is not asserted, but it must not disturb anything else
+                resp["content"] = {rng.choice(["text/csv", "application/json", "text/plain"]): {"schema": {"type": "string", "format": "binary"}}}
+                self.features.add("resp:binary_under_text")
             else:
                 resp["content"] = {"application/json": {}}
             if "content" in resp and rng.random() < 0.2:
